@@ -153,16 +153,31 @@ def rt_items(tname, fields, nocomp=None):
         lines.append('        assert(%s) by { %s }' % (cond, ' '.join(hints)))
     lines.append('        assert(q%d == d.len());' % len(fields))
     eqv = ' && '.join(eqv_term(k, f) for k, f in fields)
+    # parsed values are within limits: replay the decoder offsets and call the name lemma at each name field
+    dok = []
+    vsteps = dec_steps(fields, v='v')
+    qn = 'p'
+    for i, (kind, f) in enumerate(fields):
+        if kind == 'name':
+            dok.append('        lemma_name_dec_ok(data, %s, v.%s.lv()); lemma_inplace_nonneg(data, %s);' % (qn, f, qn))
+        nxt = re.sub(r'\bq\b', '(%s)' % qn, vsteps[i][1])
+        dok.append('        let q%d = %s;' % (i + 1, nxt))
+        qn = 'q%d' % (i + 1)
     return ("""    open spec fn wf_cdec(data: Seq<u8>, p: int, v: &Self, p2: int) -> bool { Self::wf_dec(data, p, v, p2) }
     open spec fn wf_canon(&self) -> bool { true }
     open spec fn wf_in_rdata() -> bool { true }
     open spec fn wf_nocomp() -> bool { %s }
     open spec fn wf_eqv(&self, other: &Self) -> bool { %s }
     proof fn lemma_det(data: Seq<u8>, p: int, v1: &Self, e1: int, v2: &Self, e2: int) {}
+    open spec fn wf_fit(&self) -> bool { true }
+    open spec fn wf_empty_ok() -> bool { false }
+    proof fn lemma_dec_ok(data: Seq<u8>, p: int, v: &Self, p2: int) {
+%s
+    }
     proof fn lemma_rt(&self, pre: Seq<u8>) {
 %s
     }
-""" % (nc, eqv, '\n'.join(lines)))
+""" % (nc, eqv, '\n'.join(dok), '\n'.join(lines)))
 
 def _unused():
     return ("")
